@@ -420,6 +420,9 @@ def run(cx):
     # "with altered contents": a reassembled packet is the first total_size bytes of its buffer on every path
     from props.C04 import inst_sizes
     inst_sizes(cx, "C01.t")
+    # at most once / in order: "this slot holds an undelivered packet" is read from the bit that was set for it
+    from props.shared import receiver_flag_addressing
+    receiver_flag_addressing(cx, "C01.u")
     # a slot the window passes is released whatever its state: stale fragments must not leak into the
     # packet that maps to the same slot one window later
     from props.shared import window_walks
